@@ -13,12 +13,18 @@ theories/Valid/Gate.vos theories/Valid/Gate.vok theories/Valid/Gate.required_vos
 theories/Valid/Gate_proofs.vo theories/Valid/Gate_proofs.glob theories/Valid/Gate_proofs.v.beautified theories/Valid/Gate_proofs.required_vo: theories/Valid/Gate_proofs.v theories/Base/Prelude.vo theories/Base/Regex.vo theories/Valid/Gate.vo
 theories/Valid/Gate_proofs.vio: theories/Valid/Gate_proofs.v theories/Base/Prelude.vio theories/Base/Regex.vio theories/Valid/Gate.vio
 theories/Valid/Gate_proofs.vos theories/Valid/Gate_proofs.vok theories/Valid/Gate_proofs.required_vos: theories/Valid/Gate_proofs.v theories/Base/Prelude.vos theories/Base/Regex.vos theories/Valid/Gate.vos
+theories/Valid/Gate_int.vo theories/Valid/Gate_int.glob theories/Valid/Gate_int.v.beautified theories/Valid/Gate_int.required_vo: theories/Valid/Gate_int.v theories/Base/Prelude.vo theories/Base/Regex.vo theories/Valid/Gate.vo
+theories/Valid/Gate_int.vio: theories/Valid/Gate_int.v theories/Base/Prelude.vio theories/Base/Regex.vio theories/Valid/Gate.vio
+theories/Valid/Gate_int.vos theories/Valid/Gate_int.vok theories/Valid/Gate_int.required_vos: theories/Valid/Gate_int.v theories/Base/Prelude.vos theories/Base/Regex.vos theories/Valid/Gate.vos
 theories/Event/Hash.vo theories/Event/Hash.glob theories/Event/Hash.v.beautified theories/Event/Hash.required_vo: theories/Event/Hash.v theories/Base/Prelude.vo theories/Base/Bytes.vo
 theories/Event/Hash.vio: theories/Event/Hash.v theories/Base/Prelude.vio theories/Base/Bytes.vio
 theories/Event/Hash.vos theories/Event/Hash.vok theories/Event/Hash.required_vos: theories/Event/Hash.v theories/Base/Prelude.vos theories/Base/Bytes.vos
 theories/Event/Hash_proofs.vo theories/Event/Hash_proofs.glob theories/Event/Hash_proofs.v.beautified theories/Event/Hash_proofs.required_vo: theories/Event/Hash_proofs.v theories/Base/Prelude.vo theories/Base/Bytes.vo theories/Event/Hash.vo
 theories/Event/Hash_proofs.vio: theories/Event/Hash_proofs.v theories/Base/Prelude.vio theories/Base/Bytes.vio theories/Event/Hash.vio
 theories/Event/Hash_proofs.vos theories/Event/Hash_proofs.vok theories/Event/Hash_proofs.required_vos: theories/Event/Hash_proofs.v theories/Base/Prelude.vos theories/Base/Bytes.vos theories/Event/Hash.vos
+theories/Event/Hash_inj.vo theories/Event/Hash_inj.glob theories/Event/Hash_inj.v.beautified theories/Event/Hash_inj.required_vo: theories/Event/Hash_inj.v theories/Base/Prelude.vo theories/Base/Bytes.vo theories/Event/Hash.vo theories/Event/Hash_proofs.vo
+theories/Event/Hash_inj.vio: theories/Event/Hash_inj.v theories/Base/Prelude.vio theories/Base/Bytes.vio theories/Event/Hash.vio theories/Event/Hash_proofs.vio
+theories/Event/Hash_inj.vos theories/Event/Hash_inj.vok theories/Event/Hash_inj.required_vos: theories/Event/Hash_inj.v theories/Base/Prelude.vos theories/Base/Bytes.vos theories/Event/Hash.vos theories/Event/Hash_proofs.vos
 theories/Event/Merge.vo theories/Event/Merge.glob theories/Event/Merge.v.beautified theories/Event/Merge.required_vo: theories/Event/Merge.v theories/Base/Prelude.vo
 theories/Event/Merge.vio: theories/Event/Merge.v theories/Base/Prelude.vio
 theories/Event/Merge.vos theories/Event/Merge.vok theories/Event/Merge.required_vos: theories/Event/Merge.v theories/Base/Prelude.vos
@@ -133,15 +139,15 @@ theories/Miner/Reason_proofs.vos theories/Miner/Reason_proofs.vok theories/Miner
 theories/Generated/C20_gen.vo theories/Generated/C20_gen.glob theories/Generated/C20_gen.v.beautified theories/Generated/C20_gen.required_vo: theories/Generated/C20_gen.v theories/Base/Prelude.vo
 theories/Generated/C20_gen.vio: theories/Generated/C20_gen.v theories/Base/Prelude.vio
 theories/Generated/C20_gen.vos theories/Generated/C20_gen.vok theories/Generated/C20_gen.required_vos: theories/Generated/C20_gen.v theories/Base/Prelude.vos
-theories/Props/C01.vo theories/Props/C01.glob theories/Props/C01.v.beautified theories/Props/C01.required_vo: theories/Props/C01.v theories/Base/Prelude.vo theories/Base/Bytes.vo theories/Event/Hash.vo theories/Event/Hash_proofs.vo theories/Generated/C01_gen.vo
-theories/Props/C01.vio: theories/Props/C01.v theories/Base/Prelude.vio theories/Base/Bytes.vio theories/Event/Hash.vio theories/Event/Hash_proofs.vio theories/Generated/C01_gen.vio
-theories/Props/C01.vos theories/Props/C01.vok theories/Props/C01.required_vos: theories/Props/C01.v theories/Base/Prelude.vos theories/Base/Bytes.vos theories/Event/Hash.vos theories/Event/Hash_proofs.vos theories/Generated/C01_gen.vos
+theories/Props/C01.vo theories/Props/C01.glob theories/Props/C01.v.beautified theories/Props/C01.required_vo: theories/Props/C01.v theories/Base/Prelude.vo theories/Base/Bytes.vo theories/Event/Hash.vo theories/Event/Hash_proofs.vo theories/Event/Hash_inj.vo theories/Generated/C01_gen.vo
+theories/Props/C01.vio: theories/Props/C01.v theories/Base/Prelude.vio theories/Base/Bytes.vio theories/Event/Hash.vio theories/Event/Hash_proofs.vio theories/Event/Hash_inj.vio theories/Generated/C01_gen.vio
+theories/Props/C01.vos theories/Props/C01.vok theories/Props/C01.required_vos: theories/Props/C01.v theories/Base/Prelude.vos theories/Base/Bytes.vos theories/Event/Hash.vos theories/Event/Hash_proofs.vos theories/Event/Hash_inj.vos theories/Generated/C01_gen.vos
 theories/Props/C02.vo theories/Props/C02.glob theories/Props/C02.v.beautified theories/Props/C02.required_vo: theories/Props/C02.v theories/Base/Prelude.vo theories/Parse/XmlText.vo theories/Parse/XmlText_proofs.vo
 theories/Props/C02.vio: theories/Props/C02.v theories/Base/Prelude.vio theories/Parse/XmlText.vio theories/Parse/XmlText_proofs.vio
 theories/Props/C02.vos theories/Props/C02.vok theories/Props/C02.required_vos: theories/Props/C02.v theories/Base/Prelude.vos theories/Parse/XmlText.vos theories/Parse/XmlText_proofs.vos
-theories/Props/C03.vo theories/Props/C03.glob theories/Props/C03.v.beautified theories/Props/C03.required_vo: theories/Props/C03.v theories/Base/Prelude.vo theories/Base/Regex.vo theories/Valid/Gate.vo theories/Valid/Gate_proofs.vo
-theories/Props/C03.vio: theories/Props/C03.v theories/Base/Prelude.vio theories/Base/Regex.vio theories/Valid/Gate.vio theories/Valid/Gate_proofs.vio
-theories/Props/C03.vos theories/Props/C03.vok theories/Props/C03.required_vos: theories/Props/C03.v theories/Base/Prelude.vos theories/Base/Regex.vos theories/Valid/Gate.vos theories/Valid/Gate_proofs.vos
+theories/Props/C03.vo theories/Props/C03.glob theories/Props/C03.v.beautified theories/Props/C03.required_vo: theories/Props/C03.v theories/Base/Prelude.vo theories/Base/Regex.vo theories/Valid/Gate.vo theories/Valid/Gate_proofs.vo theories/Valid/Gate_int.vo
+theories/Props/C03.vio: theories/Props/C03.v theories/Base/Prelude.vio theories/Base/Regex.vio theories/Valid/Gate.vio theories/Valid/Gate_proofs.vio theories/Valid/Gate_int.vio
+theories/Props/C03.vos theories/Props/C03.vok theories/Props/C03.required_vos: theories/Props/C03.v theories/Base/Prelude.vos theories/Base/Regex.vos theories/Valid/Gate.vos theories/Valid/Gate_proofs.vos theories/Valid/Gate_int.vos
 theories/Props/C04.vo theories/Props/C04.glob theories/Props/C04.v.beautified theories/Props/C04.required_vo: theories/Props/C04.v theories/Base/Prelude.vo theories/Base/Bytes.vo theories/Event/Merge.vo theories/Event/Hash.vo theories/Event/Hash_proofs.vo theories/Event/Merge_proofs.vo
 theories/Props/C04.vio: theories/Props/C04.v theories/Base/Prelude.vio theories/Base/Bytes.vio theories/Event/Merge.vio theories/Event/Hash.vio theories/Event/Hash_proofs.vio theories/Event/Merge_proofs.vio
 theories/Props/C04.vos theories/Props/C04.vok theories/Props/C04.required_vos: theories/Props/C04.v theories/Base/Prelude.vos theories/Base/Bytes.vos theories/Event/Merge.vos theories/Event/Hash.vos theories/Event/Hash_proofs.vos theories/Event/Merge_proofs.vos
